@@ -5,7 +5,7 @@ The noninterference theorem needs every store of a request to go to an object th
 place where two requests can meet: every mutable container (dict / list / set / deque / bytearray / ndarray,
 subclasses included) that is reachable *without going through a request* from a loaded `pydap.*` module:
 
-  * module globals,
+  * module globals (containers, and instances of classes defined in pydap: their state through `__dict__`),
   * attributes of classes defined in a pydap module (class-level caches, registries),
   * default arguments, keyword defaults, closure cells and function attributes of functions (module-level,
     methods, static/class methods) whose code lives under $VERIF_REPO/src/pydap.
@@ -91,6 +91,8 @@ def roots():
             label = "%s.%s" % (modname, k)
             if isinstance(v, MUTABLE):
                 out[label] = v
+            elif _is_pydap_mod(getattr(type(v), "__module__", "") or "") and not isinstance(v, type):
+                out[label] = v      # a module-level instance of a pydap class: its whole state (through __dict__)
             elif isinstance(v, type):
                 if getattr(v, "__module__", None) != modname:
                     continue        # listed where it is defined
